@@ -91,8 +91,9 @@ CHECKS = {
         "technique": "Lean 4 theorems (first-minimum invariant, list/dict lemmas, decide +kernel) + differential correspondence through click.testing.CliRunner + independent numpy oracle",
     },
     "C05": {
-        "text": "Static part, decomposition and wiring proved on the executable model: the model's fit satisfies the normal equations (checked "
-                "exactly over Rat), hence is the least-squares cubic, and is exact on cubics; total = static[v] + phonon[t][v] at every grid "
+        "text": "Static part, decomposition and wiring proved on the executable model: the model's Gauss-Jordan solver is proved total and correct "
+                "whenever all leading blocks are non-singular, which holds for the normal matrix of >= deg+1 distinct strains (gauss_jordan_total, "
+                "polyfit_answers), so the fit exists, satisfies the normal equations, is the least-squares cubic and is exact on cubics (cubic_fit_exact); total = static[v] + phonon[t][v] at every grid "
                 "point; the phonon part is independent of the table and the static part of T; strain triples sum to 1 (equal thirds without "
                 "a lattice block); GPa->Ry/bohr^3 and numpy.gradient semantics. The model runs over Rat on the arrays the real Calculator had "
                 "(synthetic files, all nine crystal systems, +/- lattice) and is compared at 1e-7; an independent reference rebuilt from the "
@@ -149,7 +150,7 @@ CHECKS = {
                 "give unit norm and to restore (c/|c|)e_i and orthonormality for all positive masses; dimension-mismatch rejection "
                 "characterised; loader proved at block and column-slice level. PARTIAL: the loader's regexes/float() are parameters of the "
                 "theorems (hand-written scanners in the driver, compared with the real loader).",
-        "note": COMMON_NOTE + "The bridge from the model's complex-pair overlap to Mathlib's inner product is not proved (Float run compared with numpy on every case).",
+        "note": COMMON_NOTE + "The model's complex-pair overlap is proved equal to Mathlib's inner product on EuclideanSpace C (Fin n) (first argument conjugated, as conj(base) @ target.T), so the recovery theorem is stated about Evec.evecSort itself over R-pairs (evecSort_recovers, with an explicit n=2 instance); Float rounding is outside (Float run compared with numpy on every case).",
         "technique": "Lean 4 (Finset-indexed loop invariant, Mathlib inner-product spaces, Real.sqrt algebra) + differential run with planted permutation / orthonormality / printed numbers as oracle",
     },
     "C11": {
@@ -163,7 +164,7 @@ CHECKS = {
                 "s''=ds' measured by finite differences on every library case). Real interpolate_modes / lstsq_polyfit / "
                 "Calculator._interpolate_modes / ModePlotter.plot_modes are compared with the model on 7 methods x admissible orders x "
                 "{power law, polynomial, smooth}; independent oracle: analytic gamma and V dgamma/dV, finite differences, mpmath reference.",
-        "note": COMMON_NOTE + "Totality of the Gaussian elimination on non-singular normal equations is observed at run time, not proved (its answer is re-checked exactly over Q).",
+        "note": COMMON_NOTE + "Totality of the Gaussian elimination is proved (elimination_total: an answer whenever the kernel is trivial; lsq_total: for any data on >= order+1 distinct volumes), so lsq_exact_kernel / lsq_poly_law_exact carry no solver hypothesis; rank-deficient least squares (numpy: minimum-norm) is outside the model. mode_glue_is_source ties the (exp s, -s', -s'') pattern and the node thinning/flips to mode_gamma.py as translated on this run.",
         "technique": "Lean 4 theorems (HasDerivAt chain rule, Mathlib Polynomial root counting, least-squares orthogonality) + differential correspondence with exact-rational kernels + analytic/finite-difference/mpmath oracles",
     },
     "C16": {
@@ -195,9 +196,13 @@ CHECKS = {
                 "solution is the exact least-squares solution, unique when determined; acceptance => every supplied value and every relation "
                 "is off by <= sqrt(atol) (also under ignore_rank), and by 0 when the data are consistent; residual refusal iff; flags only "
                 "disable refusals; lookup independent of Path.exists and a relations file is used; non-modulus columns pass through; "
-                "vanishing components dropped; triclinic refuses iff a component is missing. PARTIAL: full 'same map' statement for column "
-                "order/case is proved for recognition, the rank decision and the determined solution only; dtype and NaN are outside the model.",
-        "note": COMMON_NOTE + "numpy.linalg.lstsq's numerical rank threshold is replaced by exact rank (inputs keep singular values well separated); the model's own solver result is checked, its completeness is observed not proved.",
+                "vanishing components dropped; triclinic refuses iff a component is missing; column order and letter case: for a rectangular "
+                "table without case-duplicated columns and any rearrangement/re-casing of its columns fill has the same status (also the "
+                "model's own solver failure) and returns the same map - surviving input columns in input order and spelling with the same "
+                "solved values, then the identical lower-case block of new components - in the determined and in the ignore_rank "
+                "(minimum-norm) branch (the model's least squares is proved to depend only on the multiset of equations). dtype and NaN "
+                "are outside the model.",
+        "note": COMMON_NOTE + "numpy.linalg.lstsq's numerical rank threshold is replaced by exact rank (inputs keep singular values well separated); the model's own solver result is checked; its elimination is proved complete (finds a solution whenever one exists), existence of a solution of the (AA^T)^2 z = AA^T b system is observed, not proved - the column-order theorem does not need it (success is transported along the permutation).",
         "technique": "Lean 4 proofs with a verified kernel-vector decision and checked least-squares certificates + exact-rational correspondence + sympy/Fraction oracle",
     },
     "C13": {
@@ -208,8 +213,8 @@ CHECKS = {
                 "normal matrix, right-hand side, certificate and hence both least-squares solvers do not see the row order; the least-squares "
                 "polynomial is unique and invariant under an affine change of abscissa (what another reference volume does to the Eulerian strain, "
                 "proved over R), so fitted static values at corresponding points are unchanged; static column prefix/case/transposed digits give the "
-                "same canonical key and a column permutation gives the same parsed map (or both reads fail). PARTIAL: the fit_modulus corollaries of "
-                "the affine/row-order clause hold whenever both fits answer (solver totality unproved); the equivariance theorem assumes both runs "
+                "same canonical key and a column permutation gives the same parsed map (or both reads fail). The fit_modulus corollaries of the affine/row-order clause are unconditional (fit_modulus_answers, "
+                "fit_modulus_affine, static_row_perm: the unpivoted Gauss-Jordan solver is proved total on >= order+2 distinct strains). PARTIAL: the equivariance theorem assumes both runs "
                 "return; volume-block order goes through qha/scipy and is metamorphic-only. Metamorphic end-to-end runs of the real Calculator on 12 "
                 "re-presentations per data set (incl. combined column shuffle+respelling, normalised weights, extreme weight factors, composed phonon "
                 "re-presentation) with 'identical to 1e-8 of scale' (volume order: identical or rejected) as oracle.",
